@@ -382,3 +382,21 @@ package dmap
 //@   flag wired 2
 //@   flag skip nil
 //@   ensures #below_quorum_refused [C05]: old(s.rt.below_quorum()) ==> result.1 == routingtable.ErrClusterQuorum && result.0 == nil && s.dmaps == old(s.dmaps) && len(s.dmaps) == old(len(s.dmaps))
+
+// Multi-key delete: keys are grouped by partition owner; local groups are deleted key by key, remote groups are
+// forwarded as one DM.DEL each. Every group is processed before success is reported, and the count reported on
+// success is the number of keys named - the same on every path.
+//@ func (dm *DMap) deleteKey(key string) error
+//@   props C15
+//@   trusted
+//@   modifies net_acks, DeleteMisses.counter, DeleteHits.counter, every(dm.s.primary.m[0].m)
+
+//@ func (dm *DMap) deleteKeys(ctx context.Context, keys []string) (int, error)
+//@   props C15
+//@   flag wired 3
+//@   requires #parts: dm.s.parts() && dm.s.primary.count > 0 && dm.s.backup.count > 0
+//@   ensures #count [C15]: result.1 == nil ==> result.0 == len(keys)
+//@   ensures #failed [C15]: result.1 != nil ==> result.0 == 0
+//@   ensures #all_groups [C15] internal: result.1 == nil ==> forall k Ref :: dom(members)[k] ==> visited(k)
+//@   loop 0 invariant #grouping: members != nil
+//@   loop 1 invariant #groups: members != nil
